@@ -381,9 +381,11 @@ func ttObserve(out callOutcome, s ttSource, vocab ttVocab) map[string]interface{
 	o["eqh1"] = s.h1p && t == s.h1
 	// blocks of the page carrying the title / words of the title
 	tw := ttTokens(t)
+	// (blocks and lines are compared with the title the way a reader compares them: a no-break space is a blank)
+	tn := ttNorm(t)
 	neq, nother := 0, 0
 	for _, b := range s.blocks {
-		if t != "" && b == t {
+		if t != "" && b == tn {
 			neq++
 			continue
 		}
@@ -407,13 +409,13 @@ func ttObserve(out callOutcome, s ttSource, vocab ttVocab) map[string]interface{
 	outeq := false
 	if t != "" {
 		for _, line := range strings.Split(res.Text, "\n") {
-			if ttNorm(line) == t {
+			if ttNorm(line) == tn {
 				outeq = true
 			}
 		}
 		if res.Node != nil {
 			ttWalk(res.Node, func(n *html.Node) {
-				if n.Type == html.ElementNode && ttNorm(ttText(n)) == t {
+				if n.Type == html.ElementNode && ttNorm(ttText(n)) == tn {
 					outeq = true
 				}
 			})
